@@ -188,6 +188,10 @@ SweepRefused(m, key, lab) ==
   /\ lab \in LabelsOf(backend) /\ store[lab] # NoTerm
   /\ Open(Mut(m, store[lab]), key, Bind(backend, lab)) = Err
 
+(* the value under `from` offered under the label `to` to a reader holding  *)
+(* `key` (the storage is not changed): "error", or the plaintext returned    *)
+RelabelOutcome(from, key, to) == Open(store[from], key, Bind(backend, to))
+
 (* ---- properties -------------------------------------------------------- *)
 TermOK(t) ==
   /\ t.fmt \in {"1", "2"} /\ t.nonce \in Nat /\ t.key \in Keys
